@@ -294,7 +294,7 @@ def finish(prop, meta, tier, seed, results, det_res, t0, t_warm, jobs, no_eviden
                 sc = dict(v[form])
                 # the unminimised form is replayed on its class only (its digest belongs to a process with history)
                 sc["expect"] = {"class": v["class"], "detail": v["detail"], "info": v.get("info", {})}
-                if form == "scenario":
+                if form == "scenario" and not v.get("no_digest"):
                     sc["expect"]["event_digest"] = "sha256:" + v[dig_key]
                 name = f"{prop}-{v[dig_key][:12]}{'' if form == 'scenario' else '-unminimised'}.json"
                 path = os.path.join(VERIF, "replays", name)
